@@ -377,6 +377,48 @@ Definition dom_run (h : hist) (primes other residu als : list Z)
   let '(S4, V2) := dom_RnsToRing S3 residu in
   (mix, V, rrs, tl ck, V2).
 
+(* ------------------------------------------------------------------------------------------
+   RNSsystem<RING, ModularBalanced<T>>: the same code, every domain operation returning the representative of least
+   absolute value (odd p: -(p-1)/2 .. (p-1)/2); convert() hands that signed integer to the ring. *)
+Definition bmod (p x : Z) : Z := let r := x mod p in if (p - 1) / 2 <? r then r - p else r.
+Definition horner_bal (pi : Z) (done : list (Z * Z)) : Z :=
+  match done with
+  | [] => 0
+  | (_, m) :: tl => fold_left (fun tmp pm => bmod pi (tmp * bmod pi (fst pm) + bmod pi (snd pm))) tl (bmod pi m)
+  end.
+Fixpoint mr_loop_bal (done : list (Z * Z)) (todo : list (Z * Z * Z)) : list (Z * Z) :=
+  match todo with
+  | [] => done
+  | (pi, ri, cki) :: tl =>
+      let tmp := horner_bal pi done in
+      mr_loop_bal ((pi, bmod pi (bmod pi (ri - tmp) * cki)) :: done) tl
+  end.
+Definition ck_prod_bal (pk : Z) (prev : list Z) : Z :=
+  match prev with
+  | [] => 1
+  | p0 :: tl => fold_left (fun prod pi => bmod pk (prod * bmod pk pi)) tl (bmod pk p0)
+  end.
+Fixpoint ck_loop_bal (prev : list Z) (rest : list Z) : list Z :=
+  match rest with
+  | [] => []
+  | pk :: tl => bmod pk (invmod (ck_prod_bal pk prev) pk) :: ck_loop_bal (prev ++ [pk]) tl
+  end.
+Definition ComputeCk_bal (primes : list Z) : list Z :=
+  match primes with [] => [] | p0 :: ps => 0 :: ck_loop_bal [p0] ps end.
+Definition RnsToMixedRadix_bal (primes ck residu : list Z) : list Z :=
+  match primes, residu with
+  | p0 :: ps, r0 :: rs => map snd (rev (mr_loop_bal [(p0, r0)] (todo_of ps rs (tl ck))))
+  | _, _ => []
+  end.
+Definition RingToRns_bal (primes : list Z) (a : Z) : list Z := map (fun p => bmod p a) primes.
+Definition RnsToRing_bal (primes residu : list Z) : Z :=
+  MixedRadixToRing primes (RnsToMixedRadix_bal primes (ComputeCk_bal primes) residu).
+(* (digits, V, [(RingToRns a_j, RnsToRing of it)], reciprocals) of a system over balanced domains; residues given as any integers *)
+Definition bal_run (primes residu als : list Z) : list Z * Z * list (list Z * Z) * list Z :=
+  let res := map (fun pr => bmod (fst pr) (snd pr)) (combine primes residu) in
+  (RnsToMixedRadix_bal primes (ComputeCk_bal primes) res, RnsToRing_bal primes res,
+   map (fun a => let rr := RingToRns_bal primes a in (rr, RnsToRing_bal primes rr)) als, tl (ComputeCk_bal primes)).
+
 (* incremental lifting by the functor f over a list of (p_i, r_i), starting from x with modulus M; all intermediate values *)
 Fixpoint lift_chain (f : Z -> Z -> Z -> Z -> Z) (M x : Z) (todo : list (Z * Z)) : list Z :=
   match todo with
